@@ -7,7 +7,7 @@ import common
 
 
 def gen_and_replay(run, module, nontrivial=None, only=None, sigfn=None, check_log=True, timeout=3000, heap="8g",
-                   quick_cfg=None, thorough_cfg=None, extra_env=None):
+                   quick_cfg=None, thorough_cfg=None, extra_env=None, deadline_ms=1000):
     thorough = run.tier == "thorough"
     if only is not None:
         vecs = only
@@ -20,7 +20,7 @@ def gen_and_replay(run, module, nontrivial=None, only=None, sigfn=None, check_lo
         if not vecs:
             raise common.Infra("%s/%s printed no vectors" % (module, cfg))
     before = run.oom
-    common.replay_vectors(run, vecs, nontrivial=nontrivial, sigfn=sigfn, check_log=check_log)
+    common.replay_vectors(run, vecs, nontrivial=nontrivial, sigfn=sigfn, check_log=check_log, deadline_ms=deadline_ms)
     run.traces += len(vecs) - (run.oom - before)
     return vecs
 
